@@ -392,7 +392,7 @@ void run_idle_sweep(Judge& j, uint64_t nbase, int max_idle, const std::vector<in
             const std::vector<int>& kinds = pass == 0 ? term_kinds : handler_kinds;
             for (int ip = 1; ip <= lim; ++ip)
                 for (int tk : kinds) {
-                    if (pass == 2 && tk > 2 && tk != 4 && tk != 5) continue;
+                    if (pass == 2 && tk > 2 && tk != 4 && tk != 5 && tk != 10) continue;
                     if (int(idx++ % ctx.nshards) != ctx.shard) continue;
                     Scenario sc = base; sc.family = pass == 0 ? "idle-sweep" : pass == 1 ? "handler-sweep" : "timer-sweep"; sc.index = bi * 1000000 + ip * 10 + tk + (pass ? 500000 : 0) + (pass == 2 ? 200000 : 0);
                     Action a;
@@ -411,8 +411,17 @@ void run_idle_sweep(Judge& j, uint64_t nbase, int max_idle, const std::vector<in
                             break;
                         }
                         case 4: {   // per-operation signal on the first request of the script
-                            a.kind = Action::signal; a.target = 1; a.sig = rng.pick(std::vector<SigType>{SigType::total, SigType::partial, SigType::terminal});
-                            if (sc.script.size() > 1) sc.script[1].with_slot = true;
+                            a.kind = Action::signal; a.target = -1; a.sig = rng.pick(std::vector<SigType>{SigType::total, SigType::partial, SigType::terminal});
+                            for (size_t q = 0; q < sc.script.size(); ++q) if (sc.script[q].kind == Action::publish || sc.script[q].kind == Action::subscribe || sc.script[q].kind == Action::unsubscribe) { sc.script[q].with_slot = true; a.target = (int)q; break; }
+                            break;
+                        }
+                        case 10: {  // cancellation signal on async_run's own slot: the client is cancelled in place (no fresh service), then run again
+                            a.kind = Action::signal; a.target = -1; a.sig = rng.pick(std::vector<SigType>{SigType::terminal, SigType::terminal, SigType::total, SigType::partial});
+                            for (size_t q = 0; q < sc.script.size(); ++q) if (sc.script[q].kind == Action::run) { sc.script[q].with_slot = true; a.target = (int)q; break; }
+                            if (pass == 0) {
+                                Action r2; r2.kind = Action::run; r2.idle_index = ip + 3; extra.push_back(r2);
+                                Action p2; p2.kind = Action::publish; p2.qos = 1; p2.topic = "again"; p2.payload = "x"; p2.idle_index = ip + 4; extra.push_back(p2);
+                            }
                             break;
                         }
                         case 5: a.kind = Action::disconnect; a.rc = 4; { ref::Prop u; u.id = 0x1F; u.s1 = "bye"; a.props.push_back(u); } break;
@@ -1223,7 +1232,7 @@ int run_families(const FamilyCtx& ctx, vu::Result& res) {
         Knobs k = knobs_for("c04-mix");
         run_mix(j, k, "c04-mix", T ? 150000 : 3000);
     } else if (P == "C05") {
-        run_idle_sweep(j, T ? 40 : 4, T ? 200 : 90, {0, 1, 2, 3, 4, 5, 6, 7, 8}, T ? 400 : 150, {0, 1, 2, 6}, T ? 300 : 80);
+        run_idle_sweep(j, T ? 40 : 4, T ? 200 : 90, {0, 1, 2, 3, 4, 5, 6, 7, 8, 10}, T ? 400 : 150, {0, 1, 2, 6, 10}, T ? 300 : 80);
         run_closed_client(j, T ? 20000 : 600);
         Knobs k = knobs_for("c05-mix");
         run_mix(j, k, "c05-mix", T ? 50000 : 1000);
